@@ -923,10 +923,23 @@ HANG_LOG = []              # stacks taken by the watchdog (a Hang raised inside 
 STATE = {'alarm': CASE_ALARM, 'hangs': 0}
 
 
+def arm(secs):
+    """the watchdog counts CPU time of this process (a spin burns it; a machine busy with other work does not), with
+    a much longer wall-clock alarm behind it for a loop that blocks without spinning"""
+    signal.setitimer(signal.ITIMER_PROF, secs)
+    signal.alarm(20 * secs)
+
+
+def disarm():
+    signal.setitimer(signal.ITIMER_PROF, 0)
+    signal.alarm(0)
+
+
 def _alarm(signum, frame):
     where = ''.join(traceback.format_stack(frame, 8))
     HANG_LOG.append(where[-1500:])
-    raise Hang('no progress for %d s; innermost frames when the watchdog fired:\n%s' % (STATE['alarm'], where))
+    disarm()
+    raise Hang('no progress for %d s of CPU time; innermost frames when the watchdog fired:\n%s' % (STATE['alarm'], where))
 
 
 def run_connections(job, emit):
@@ -946,7 +959,7 @@ def run_connections(job, emit):
             return
         STATE['alarm'] = job.get('alarm', CASE_ALARM)
         del HANG_LOG[:]
-        signal.alarm(STATE['alarm'])
+        arm(STATE['alarm'])
         rec = {'first': i}
         try:
             res = asyncio.run(run_job(sub))
@@ -963,7 +976,7 @@ def run_connections(job, emit):
             rec['trace'] = traceback.format_exc()[-1200:]
             rec['count'] = len(sub.get('payloads', [])) or 1
         finally:
-            signal.alarm(0)
+            disarm()
         emit(rec)
         i += rec['count']
 
@@ -979,7 +992,7 @@ def run_parser_stage(job):
     root = tempfile.mkdtemp(prefix='c10-')
     P.PROGRESS.clear()
     STATE['alarm'] = job.get('alarm', 60)
-    signal.alarm(STATE['alarm'])
+    arm(STATE['alarm'])
     try:
         if stage == 'getters':
             cases, bad, stats = P.getters_run(rng, n)
@@ -995,6 +1008,7 @@ def run_parser_stage(job):
             cases, bad, stats = asyncio.run(P.sftp_framing_run(rng, n, root))
         elif stage == 'copy':
             cases, bad, stats, params = asyncio.run(P.copy_run(rng, tier, root, job.get('only')))
+            rec['hows'] = [(p[6] if len(p) > 6 and p[6] else ('two_opens' if p[0] else 'distinct')) for p in params]
         elif stage == 'fuzz_imports':
             bad, stats = P.fuzz_imports(rng, n, job.get('only'))
             cases = []
@@ -1006,7 +1020,8 @@ def run_parser_stage(job):
             cases = []
         else:
             raise ValueError('unknown stage ' + stage)
-        rec['res'] = {'cases': cases, 'stats': stats,
+        stats = {k: v for k, v in stats.items() if isinstance(v, int)}
+        rec['res'] = {'cases': cases, 'stats': stats, 'hows': rec.pop('hows', None),
                       'bad': [(f, d.hex() if isinstance(d, (bytes, bytearray)) else str(d), e) for f, d, e in bad]}
     except Hang as e:
         rec['hang'] = str(e)[-1800:]
@@ -1015,7 +1030,7 @@ def run_parser_stage(job):
         rec['error'] = '%s: %s' % (type(e).__name__, e)
         rec['trace'] = traceback.format_exc()[-1500:]
     finally:
-        signal.alarm(0)
+        disarm()
         shutil.rmtree(root, ignore_errors=True)
     return rec
 
@@ -1025,6 +1040,7 @@ def child_main(jobs_path, out_path):
     jobs = json.load(open(jobs_path))
     out = open(out_path, 'a', buffering=1)
     signal.signal(signal.SIGALRM, _alarm)
+    signal.signal(signal.SIGPROF, _alarm)
     import logging
     logging.disable(logging.CRITICAL)
     for idx, job in jobs:
